@@ -129,7 +129,41 @@ def run_shard(shard):
         fp = rng.choice([None, None, False] + ([True] if v >= 8 else []))
         ctxs = [recipes.gen_ctx_desc(rng, mode) for _ in range(3)]
         check_recipe(acc, probe, recipe, v, mode, (ss, fp), ctxs, seen)
+    for v in (6, 8, 10):
+        history_probe(pt, acc, seen, v)
     return acc.result()
+
+
+def history_probe(pt, acc, seen, version):
+    """Discipline must not depend on what failed earlier in the process: a subroutine body raises while it is evaluated (the caller
+    catches it), then a program with ABI values in its main routine is compiled *without* resetting anything, and judged."""
+    from .. import avm
+
+    class Boom(Exception):
+        pass
+    try:
+        @pt.Subroutine(pt.TealType.uint64)
+        def bad(a):
+            x = pt.abi.Uint64()
+            raise Boom("user code failed inside a subroutine body")
+        y = pt.abi.Uint64()
+        pt.compileTeal(pt.Seq(y.set(1), bad(y.get())), pt.Mode.Application, version=version)
+    except Boom:
+        pass
+    a, b, s = pt.abi.Uint64(), pt.abi.Uint16(), pt.abi.String()
+    prog = pt.Seq(a.set(5), b.set(a.get() + pt.Int(2)), s.set("xy"), pt.Log(pt.Concat(s.get(), pt.Itob(a.get() + b.get()))), pt.Int(1))
+    try:
+        teal = pt.compileTeal(prog, pt.Mode.Application, version=version)
+    except Exception as e:
+        acc.counters["history_probe_not_emitted"] += 1
+        return
+    case = {"source": "history_probe", "mode": "app", "version": version, "desc": {"history": "subroutine body raised, then ABI values in main"}}
+    p = judge_text(acc, "history_probe", "app", version, teal, case, seen)
+    if p is not None:
+        r = avm.run(p, avm.Ctx())
+        acc.counters["concrete_runs"] += 1
+        if r.status == "fail" and r.error_kind in ("type", "stack", "frame"):
+            acc.violation("runtime_discipline", case, "after a failed compilation, a program without anytype expressions failed with a %s error: %s" % (r.error_kind, r.error), teal=teal[-1200:])
 
 
 def check_recipe(acc, probe, recipe, v, mode, opts, ctxs, seen):
